@@ -1,3 +1,340 @@
-//! C14 — not built yet.
+//! C14 — every simplex step preserves equivalence, feasibility and monotonicity:
+//! `StandardLinearModel::into_tableau` (direct and two-phase start), `Tableau::step` after every step,
+//! `Tableau::solve_step_by_step` (stall counter, Bland switch, iteration limit).
 use crate::case::Case;
-pub fn generate(_seed: u64, _n: usize, _thorough: bool, _corpus: Option<&str>) -> Vec<Case> { vec![] }
+use crate::gen_std::{self, DataClass};
+use crate::props::c13;
+use crate::rng::Rng;
+use rooc::{CanonicalTransformError, EqualityConstraint, SimplexError, StandardLinearModel, StepAction, Tableau};
+
+const STEP_CAP: usize = 40;
+const SOLVE_LIMIT: i64 = 1000;
+
+pub fn tab_sx(t: &Tableau) -> String {
+    let mut s = format!("(tab (c{}{}) (a", if t.c_vec().is_empty() { "" } else { " " }, gen_std::nums(t.c_vec()));
+    for r in t.a_matrix() { s.push_str(&format!(" ({})", gen_std::nums(r))); }
+    s.push_str(&format!(") (b{}{}) (basis", if t.b_vec().is_empty() { "" } else { " " }, gen_std::nums(t.b_vec())));
+    for i in t.in_basis() { s.push_str(&format!(" {}", i)); }
+    s.push_str(&format!(") {} {} {})", gen_std::num(t.current_value()), gen_std::num(t.value_offset()), if t.flip_result() { "flip" } else { "noflip" }));
+    s
+}
+
+fn canon_err(e: &CanonicalTransformError) -> String {
+    match e {
+        CanonicalTransformError::Raw(_) => "(err Raw)".into(),
+        CanonicalTransformError::InvalidBasis(_) => "(err InvalidBasis)".into(),
+        CanonicalTransformError::Infesible(_) => "(err Infesible)".into(),
+        CanonicalTransformError::SimplexError(msg) => {
+            let inner = if msg.contains("Unbounded") { "Unbounded" } else if msg.contains("IterationLimitReached") { "IterationLimitReached" } else { "Other" };
+            format!("(err SimplexError {})", inner)
+        }
+    }
+}
+fn simplex_err(e: &SimplexError) -> &'static str {
+    match e { SimplexError::Unbounded => "Unbounded", SimplexError::IterationLimitReached => "IterationLimitReached", SimplexError::Other => "Other" }
+}
+
+/// `SimplexStep`'s only native read access is `Display` ("Value:v\nname = c\n…"); f64 `Display` round-trips.
+fn parse_step_display(s: &str) -> Option<(Vec<f64>, f64)> {
+    let mut lines = s.lines();
+    let v: f64 = lines.next()?.strip_prefix("Value:")?.parse().ok()?;
+    let mut c = vec![];
+    for l in lines { c.push(l.rsplit_once(" = ")?.1.parse().ok()?); }
+    Some((c, v))
+}
+
+fn std_show(v: &rooc::verif_hooks::StandardView) -> String {
+    let rows = v.rows.iter().map(|(c, b)| format!("{:?} = {}", c, b)).collect::<Vec<_>>().join("; ");
+    format!("min {:?} s.t. {} (x >= 0)", v.objective, rows)
+}
+
+/// all cases of one standard-form problem
+pub fn problem(sm: &StandardLinearModel, tol: f64, tags: &[String], prefer: &[usize], cases: &mut Vec<Case>) {
+    let view = rooc::verif_hooks::standard_view(sm);
+    let ssx = c13::std_sx(&view);
+    let show = std_show(&view);
+    let tnum = gen_std::num(tol);
+    // ---- canonical start
+    let mut c0 = Case::default();
+    c0.req = format!("tableau {} {}", tnum, ssx);
+    c0.show = format!("into_tableau: {}", show);
+    let mut t0tags = tags.to_vec();
+    let sm2 = sm.clone();
+    let start = match std::panic::catch_unwind(move || sm2.into_tableau()) {
+        Err(_) => { c0.imp = "(err panic)".into(); c0.impl_violation = Some("into_tableau panicked".into()); c0.sig = Some("panic-into-tableau".into()); None }
+        Ok(Err(e)) => { c0.imp = canon_err(&e); t0tags.push(format!("start:{}", c0.imp)); None }
+        Ok(Ok(t)) => { c0.imp = format!("(ok {})", tab_sx(&t)); Some(t) }
+    };
+    let start_sx = c0.imp.clone();
+    let Some(t0) = start else {
+        c0.oracle = format!("check-trace {} {} {} (steps) (final none (solve none))", tnum, ssx, start_sx);
+        c0.tags = t0tags;
+        c0.nontrivial = true;
+        cases.push(c0);
+        return;
+    };
+    let two_phase = {
+        // the direct start keeps the row order and only rescales; anything else went through phase 1
+        let cols = view.variables.len();
+        let indep = (0..cols).filter(|j| view.rows.iter().filter(|(r, _)| (r[*j]).abs() >= tol).count() == 1).count();
+        indep < view.rows.len() || t0.a_matrix().len() != view.rows.len()
+    };
+    t0tags.push(if two_phase { "start:two-phase-or-fallback".into() } else { "start:direct".into() });
+    if t0.a_matrix().len() < view.rows.len() { t0tags.push("start:redundant-row-dropped".into()); }
+    // ---- step by step (public `step`, Dantzig's rule), every intermediate state recorded
+    let mut steps_sx = vec![];
+    let mut t = t0.clone();
+    let mut status = "open";
+    let mut seen_bases: Vec<Vec<usize>> = vec![{ let mut b = t.in_basis().clone(); b.sort(); b }];
+    let mut step_cases = vec![];
+    let (mut ties, mut degenerate, mut repeats) = (0, 0, 0);
+    for k in 0..STEP_CAP {
+        let before = tab_sx(&t);
+        let prev_val = t.current_value();
+        // ratio-test ties, measured on the state before the step (for the distribution only)
+        let mut sc = Case::default();
+        sc.req = format!("step {} ({}) {}", tnum, prefer.iter().map(|i| i.to_string()).collect::<Vec<_>>().join(" "), before);
+        sc.show = format!("step {} of: {}", k, show);
+        sc.tags = vec!["kind:step".into()];
+        let mut tt = t.clone();
+        let pf = prefer.to_vec();
+        let r = std::panic::catch_unwind(move || { let r = tt.step(&pf); (r, tt) });
+        match r {
+            Err(_) => { sc.imp = "(err panic)".into(); sc.impl_violation = Some("step panicked".into()); sc.sig = Some("panic-step".into()); status = "panic"; step_cases.push(sc); break; }
+            Ok((Err(e), _)) => { sc.imp = format!("(err {})", simplex_err(&e)); sc.tags.push(format!("action:{}", simplex_err(&e))); status = if matches!(e, SimplexError::Unbounded) { "unbounded" } else { "error" }; step_cases.push(sc); break; }
+            Ok((Ok(StepAction::Finished), _)) => { sc.imp = "(ok finished)".into(); sc.tags.push("action:finished".into()); status = "finished"; step_cases.push(sc); break; }
+            Ok((Ok(StepAction::Pivot { entering, leaving, ratio }), tn)) => {
+                let after = tab_sx(&tn);
+                let act = format!("(pivot {} {} {})", entering, leaving, gen_std::num(ratio));
+                sc.imp = format!("(ok {} {})", act, after);
+                sc.nontrivial = true;
+                sc.tags.push("action:pivot".into());
+                // distribution: ties in the ratio test, degenerate pivots
+                let col: Vec<(f64, f64)> = t.a_matrix().iter().zip(t.b_vec()).map(|(r, b)| (r[entering], *b)).collect();
+                let tied = col.iter().filter(|(a, b)| *a >= tol && ((b / a) - ratio).abs() < tol).count();
+                if tied > 1 { ties += 1; sc.tags.push("ratio-tie".into()); }
+                if (tn.current_value() - prev_val).abs() < tol { degenerate += 1; sc.tags.push("degenerate-pivot".into()); }
+                steps_sx.push(format!("({} {})", act, after));
+                t = tn;
+                let mut b = t.in_basis().clone(); b.sort();
+                if seen_bases.contains(&b) { repeats += 1; } else { seen_bases.push(b); }
+                step_cases.push(sc);
+            }
+        }
+    }
+    // ---- the solver loop itself (stall counter, Bland switch, limit)
+    let mut ts = t0.clone();
+    let mut sv = Case::default();
+    sv.req = format!("solve {} {} {}", tnum, SOLVE_LIMIT, tab_sx(&t0));
+    sv.show = format!("solve_step_by_step({}): {}", SOLVE_LIMIT, show);
+    sv.tags = vec!["kind:solve".into()];
+    let solve_part;
+    let r = std::panic::catch_unwind(move || { let r = ts.solve_step_by_step(SOLVE_LIMIT); (r, ts) });
+    match r {
+        Err(_) => { sv.imp = "(err panic)".into(); sv.impl_violation = Some("solve_step_by_step panicked".into()); sv.sig = Some("panic-solve".into()); solve_part = "(solve panic)".to_string(); }
+        Ok((Err(e), ts)) => {
+            sv.imp = format!("(solved {} {})", simplex_err(&e), tab_sx(&ts));
+            sv.tags.push(format!("solve:{}", simplex_err(&e)));
+            solve_part = format!("(solve {})", simplex_err(&e));
+        }
+        Ok((Ok(res), _)) => {
+            let ft = res.result().tableau();
+            let mut trace = String::new();
+            let mut ok = true;
+            for s in res.steps() {
+                match parse_step_display(&s.to_string()) {
+                    Some((c, v)) => trace.push_str(&format!(" (({}) {})", gen_std::nums(&c), gen_std::num(v))),
+                    None => ok = false,
+                }
+            }
+            if !ok { sv.impl_violation = Some("SimplexStep Display not parseable".into()); sv.sig = Some("harness-display".into()); }
+            sv.imp = format!("(solved ok {} {} (values{}{}) {} (trace{}))", res.steps().len(), tab_sx(ft),
+                if res.result().variables_values().is_empty() { "" } else { " " }, gen_std::nums(res.result().variables_values()),
+                gen_std::num(res.result().optimal_value()), trace);
+            sv.nontrivial = !res.steps().is_empty();
+            sv.tags.push("solve:ok".into());
+            // did the stall counter reach the Bland switch?  (needs > c+a+1 consecutive stalled pivots)
+            let stall_limit = ft.c_vec().len() + ft.a_matrix().len() + 1;
+            if res.steps().len() > stall_limit { sv.tags.push("solve:long-enough-for-bland".into()); }
+            solve_part = format!("(solve ok {})", gen_std::num(-ft.current_value()));
+        }
+    }
+    c0.oracle = format!("check-trace {} {} {} (steps{}{}) (final {} {})", tnum, ssx, start_sx,
+        if steps_sx.is_empty() { "" } else { " " }, steps_sx.join(" "), status, solve_part);
+    t0tags.push(format!("trace:{}", status));
+    t0tags.push(format!("trace-len:{}", if steps_sx.len() >= 6 { "6+".to_string() } else { steps_sx.len().to_string() }));
+    if ties > 0 { t0tags.push("trace:has-ratio-tie".into()); }
+    if degenerate > 0 { t0tags.push("trace:has-degenerate-pivot".into()); }
+    if repeats > 0 { t0tags.push("trace:dantzig-revisits-basis".into()); }
+    t0tags.push("kind:tableau".into());
+    c0.tags = t0tags;
+    c0.nontrivial = true;
+    cases.push(c0);
+    cases.extend(step_cases);
+    cases.push(sv);
+}
+
+fn std_from(obj: Vec<f64>, rows: Vec<(Vec<f64>, f64)>, flip: bool, offset: f64) -> StandardLinearModel {
+    let n = obj.len();
+    let vars = (0..n).map(|i| format!("v{}", i)).collect();
+    let cons = rows.into_iter().map(|(c, b)| EqualityConstraint::new(c, b)).collect();
+    StandardLinearModel::new(obj, cons, vars, offset, flip)
+}
+
+/// random small standard-form problems built directly (not through the standardizer)
+fn direct(r: &mut Rng, class: DataClass) -> (StandardLinearModel, Vec<String>) {
+    let m = 1 + r.below(3);
+    let n = m + r.below(4);
+    let mut tags = vec!["stream:direct-std".to_string(), class.tag().to_string(), format!("size:{}x{}", m, n)];
+    let mut rows: Vec<(Vec<f64>, f64)> = (0..m).map(|_| {
+        ((0..n).map(|_| if r.chance(2, 5) { 0.0 } else { gen_std::value(r, class, -3, 4) }).collect(), gen_std::value(r, class, 0, 6))
+    }).collect();
+    match r.below(8) {
+        0 if m >= 2 => { let src = rows[0].clone(); rows[1] = src; tags.push("shape:duplicate-row".into()); }
+        1 if m >= 2 => { let src = rows[0].clone(); rows[1] = (src.0.iter().map(|x| x * 2.0).collect(), src.1 * 2.0); tags.push("shape:scaled-duplicate-row".into()); }
+        2 if m >= 2 => { let src = rows[0].clone(); rows[1] = (src.0, src.1 + 1.0); tags.push("shape:inconsistent-rows".into()); }
+        3 if m >= 3 => { let s: Vec<f64> = (0..n).map(|j| rows[0].0[j] + rows[1].0[j]).collect(); rows[2] = (s, rows[0].1 + rows[1].1); tags.push("shape:sum-row".into()); }
+        4 => { for row in rows.iter_mut() { if r.chance(1, 2) { row.1 = 0.0; } } tags.push("shape:zero-rhs".into()); }
+        5 => { // slack-like identity block: direct start
+            for (i, row) in rows.iter_mut().enumerate() { for k in 0..m { if n >= m { row.0[n - m + k] = if k == i { 1.0 } else { 0.0 }; } } }
+            tags.push("shape:identity-block".into());
+        }
+        _ => {}
+    }
+    let obj = (0..n).map(|_| if r.chance(1, 4) { 0.0 } else { gen_std::value(r, class, -3, 3) }).collect();
+    (std_from(obj, rows, r.chance(1, 2), [0.0, 1.5][r.below(2)]), tags)
+}
+
+/// bounded-looking polytopes `min -c·x, A x + s = b` (direct start, several pivots, ties, degenerate vertices)
+fn polytope(r: &mut Rng, class: DataClass) -> (StandardLinearModel, Vec<String>) {
+    let m = 2 + r.below(4);
+    let k = 2 + r.below(4);
+    let mut rows = vec![];
+    for i in 0..m {
+        let mut c: Vec<f64> = (0..k).map(|_| if r.chance(1, 5) { 0.0 } else if r.chance(1, 6) { -gen_std::value(r, class, 1, 2) } else { gen_std::value(r, class, 1, 3) }).collect();
+        for j in 0..m { c.push(if i == j { 1.0 } else { 0.0 }); }
+        let b = if r.chance(1, 4) { 0.0 } else { gen_std::value(r, class, 1, 6).abs() };
+        rows.push((c, b));
+    }
+    let mut obj: Vec<f64> = (0..k).map(|_| if r.chance(1, 6) { gen_std::value(r, class, 0, 2) } else { -gen_std::value(r, class, 1, 4).abs() }).collect();
+    obj.extend(vec![0.0; m]);
+    (std_from(obj, rows, r.chance(1, 2), 0.0), vec!["stream:direct-polytope".into(), class.tag().to_string(), format!("size:{}x{}", m, k + m)])
+}
+
+/// equality systems with a planted sparse non-negative solution (two-phase start, artificial drive-out)
+fn planted_equalities(r: &mut Rng, class: DataClass) -> (StandardLinearModel, Vec<String>) {
+    let m = 2 + r.below(2);
+    let n = m + 1 + r.below(3);
+    let x0: Vec<f64> = (0..n).map(|_| if r.chance(1, 2) { 0.0 } else { [1.0, 2.0, 0.5, 3.0][r.below(4)] }).collect();
+    let mut rows: Vec<(Vec<f64>, f64)> = (0..m).map(|_| {
+        let c: Vec<f64> = (0..n).map(|_| if r.chance(1, 3) { 0.0 } else { gen_std::value(r, class, -2, 3) }).collect();
+        let b: f64 = c.iter().zip(&x0).map(|(a, x)| a * x).sum();
+        (c, b)
+    }).collect();
+    let mut tags = vec!["stream:direct-planted-equalities".to_string(), class.tag().to_string(), format!("size:{}x{}", m, n)];
+    if r.chance(1, 4) { let s: Vec<f64> = (0..n).map(|j| rows[0].0[j] - rows[1].0[j]).collect(); let b = rows[0].1 - rows[1].1; rows.push((s, b)); tags.push("shape:difference-row".into()); }
+    let obj = (0..n).map(|_| gen_std::value(r, class, -2, 4)).collect();
+    (std_from(obj, rows, false, 0.0), tags)
+}
+
+/// textbook degenerate / cycling instances (`max` problems written as `min` of the negated objective,
+/// one slack per row)
+fn classics() -> Vec<(&'static str, StandardLinearModel)> {
+    let with_slacks = |obj: Vec<f64>, rows: Vec<(Vec<f64>, f64)>| {
+        let m = rows.len();
+        let n = obj.len();
+        let mut o = obj.clone(); o.extend(vec![0.0; m]);
+        let rs = rows.into_iter().enumerate().map(|(i, (mut c, b))| { c.resize(n, 0.0); for k in 0..m { c.push(if k == i { 1.0 } else { 0.0 }); } (c, b) }).collect();
+        std_from(o, rs, true, 0.0)
+    };
+    vec![
+        // Chvátal p.31 (cycles with largest-coefficient + smallest-subscript ties)
+        ("classic:chvatal-cycle", with_slacks(vec![-10.0, 57.0, 9.0, 24.0],
+            vec![(vec![0.5, -5.5, -2.5, 9.0], 0.0), (vec![0.5, -1.5, -0.5, 1.0], 0.0), (vec![1.0, 0.0, 0.0, 0.0], 1.0)])),
+        // Beale 1955
+        ("classic:beale-cycle", with_slacks(vec![-0.75, 150.0, -0.02, 6.0],
+            vec![(vec![0.25, -60.0, -0.04, 9.0], 0.0), (vec![0.5, -90.0, -0.02, 3.0], 0.0), (vec![0.0, 0.0, 1.0, 0.0], 1.0)])),
+        // Marshall–Suurballe
+        ("classic:marshall-suurballe", with_slacks(vec![-2.3, -2.15, 13.55, 0.4],
+            vec![(vec![0.4, 0.2, -1.4, -0.2], 0.0), (vec![-7.8, -1.4, 7.8, 0.4], 0.0)])),
+        // Kuhn's example
+        ("classic:kuhn-cycle", with_slacks(vec![-2.0, -3.0, 1.0, 12.0],
+            vec![(vec![-2.0, -9.0, 1.0, 9.0], 0.0), (vec![1.0 / 3.0, 1.0, -1.0 / 3.0, -2.0], 0.0)])),
+        // Klee–Minty n = 3
+        ("classic:klee-minty-3", with_slacks(vec![-100.0, -10.0, -1.0],
+            vec![(vec![1.0, 0.0, 0.0], 1.0), (vec![20.0, 1.0, 0.0], 100.0), (vec![200.0, 20.0, 1.0], 10000.0)])),
+        // degenerate vertex in 2d / redundant constraint through the optimum
+        ("classic:degenerate-2d", with_slacks(vec![-1.0, -1.0],
+            vec![(vec![1.0, 0.0], 1.0), (vec![0.0, 1.0], 1.0), (vec![1.0, 1.0], 2.0), (vec![1.0, 2.0], 3.0)])),
+    ]
+}
+
+/// variants of the two instances that cycle under Dantzig's rule with this ratio-test tie-break (Chvátal,
+/// Beale): extra non-binding rows and extra never-entering columns keep the cycle but change sizes (and
+/// with them the stall limit); they are what exercises the Bland branch of `find_h`.
+fn cycling_variant(r: &mut Rng) -> StandardLinearModel {
+    let (obj, rows): (Vec<f64>, Vec<(Vec<f64>, f64)>) = if r.chance(1, 2) {
+        (vec![-10.0, 57.0, 9.0, 24.0], vec![(vec![0.5, -5.5, -2.5, 9.0], 0.0), (vec![0.5, -1.5, -0.5, 1.0], 0.0), (vec![1.0, 0.0, 0.0, 0.0], 1.0)])
+    } else {
+        (vec![-0.75, 150.0, -0.02, 6.0], vec![(vec![0.25, -60.0, -0.04, 9.0], 0.0), (vec![0.5, -90.0, -0.02, 3.0], 0.0), (vec![0.0, 0.0, 1.0, 0.0], 1.0)])
+    };
+    let extra_cols = r.below(3);
+    let extra_rows = r.below(3);
+    let k = obj.len() + extra_cols;
+    let mut obj = obj; for _ in 0..extra_cols { obj.push(1.0 + r.below(5) as f64); }
+    let mut rows: Vec<(Vec<f64>, f64)> = rows.into_iter().map(|(mut c, b)| { for _ in 0..extra_cols { c.push(r.range(0, 3) as f64); } (c, b) }).collect();
+    for _ in 0..extra_rows { let mut c = vec![0.0; k]; c[r.below(k)] = 1.0; c[r.below(k)] += 1.0; rows.push((c, 50.0 + r.below(50) as f64)); }
+    let m = rows.len();
+    obj.extend(vec![0.0; m]);
+    let rs = rows.into_iter().enumerate().map(|(i, (mut c, b))| { for j in 0..m { c.push(if i == j { 1.0 } else { 0.0 }); } (c, b) }).collect();
+    std_from(obj, rs, true, 0.0)
+}
+
+pub fn generate(seed: u64, n: usize, thorough: bool, _corpus: Option<&str>) -> Vec<Case> {
+    let mut r = Rng::new(seed).fork(); // fork: `Rng::new(s+1)` is `Rng::new(s)` shifted by one draw, the fork decorrelates seeds
+    let tol = gen_std::measured_tolerance();
+    let mut cases = vec![];
+    for (name, sm) in classics() {
+        problem(&sm, tol, &["stream:classic".to_string(), name.to_string()], &[], &mut cases);
+    }
+    for _ in 0..(if thorough { 80 } else { 8 }) {
+        let sm = cycling_variant(&mut r);
+        problem(&sm, tol, &["stream:cycling-variants".to_string()], &[], &mut cases);
+    }
+    // seeded known defect (liveness of the pipeline): a reduced cost below the absolute tolerance
+    problem(&std_from(vec![-2.0, -0.00000999, 0.0, 0.0], vec![(vec![1.0, 0.0, -1.0, 0.0], 3.0), (vec![1.0, 0.0, 0.0, 1.0], 3.0)], false, 0.0),
+        tol, &["stream:seeded-known-defect".to_string()], &[], &mut cases);
+    // ---- C13's engine: every kind pattern of small models, standardised by the real code
+    let (maxv, maxr) = if thorough { (3, 3) } else { (2, 2) };
+    for nv in 1..=maxv {
+        for vp in gen_std::patterns(&gen_std::VKINDS4, nv) {
+            for nr in 0..=maxr {
+                for rp in gen_std::patterns(&gen_std::RKINDS, nr) {
+                    let opt = if r.chance(1, 2) { rooc::OptimizationType::Min } else { rooc::OptimizationType::Max };
+                    let s = gen_std::spec(&mut r, &vp, &rp, opt, DataClass::SmallInt);
+                    if let Ok(sm) = gen_std::build(&s).into_standard_form() {
+                        problem(&sm, tol, &["stream:standardised-exhaustive-kinds".to_string(), s.class.tag().to_string()], &[], &mut cases);
+                    }
+                }
+            }
+        }
+    }
+    let classes = [DataClass::SmallInt, DataClass::SmallInt, DataClass::Dyadic, DataClass::Decimal, DataClass::TolBoundary];
+    for i in 0..n {
+        let class = classes[i % classes.len()];
+        if i % 2 == 0 {
+            let s = gen_std::random_spec(&mut r, 3, 3, &gen_std::VKINDS7, class);
+            if let Ok(sm) = gen_std::build(&s).into_standard_form() {
+                problem(&sm, tol, &["stream:standardised-random".to_string(), class.tag().to_string()], &[], &mut cases);
+            }
+        } else {
+            let (sm, tags) = match i % 8 { 1 => direct(&mut r, class), 3 | 7 => polytope(&mut r, class), _ => planted_equalities(&mut r, class) };
+            // now and then with a preference list for the ratio-test tie-break (as phase 1 uses it)
+            let prefer: Vec<usize> = if r.chance(1, 5) { (0..2).map(|_| r.below(6)).collect() } else { vec![] };
+            let mut tags = tags;
+            if !prefer.is_empty() { tags.push("step:with-preference-list".into()); }
+            problem(&sm, tol, &tags, &prefer, &mut cases);
+        }
+    }
+    cases
+}
